@@ -1138,6 +1138,8 @@ package flyt
 //@   ensures [C09,C11] cnt == 0 ==> (*results)[*idx].err != nil
 //@   ensures [C09] cnt == 1 && oe != nil && *errorHandling == "stop" ==> *shouldStop
 //@   ensures [C09] (old(*shouldStop) ==> *shouldStop) && (*errorHandling != "stop" ==> *shouldStop == old(*shouldStop))
+// the stop flag is raised only by an item that was executed and failed
+//@   ensures [C06,C09] *shouldStop && !old(*shouldStop) ==> cnt == 1 && oe != nil
 
 // Submission: one task per index, bound to its own index and item copy; Wait before returning; Close after Wait.
 //@ func runBatchConcurrent(ctx, node, items, results, concurrency, errorHandling) ()
@@ -1153,6 +1155,8 @@ package flyt
 //@     requires [C06,C07,C08] *binding(task, "runBatchConcurrent$1", idx) == i && *binding(task, "runBatchConcurrent$1", itm) == items[i] && *binding(task, "runBatchConcurrent$1", results) == results
 //@     requires [C06,C07] binding(task, "runBatchConcurrent$1", idx) != binding(task, "runBatchConcurrent$1", shouldStop) && fresh(binding(task, "runBatchConcurrent$1", idx)) && fresh(binding(task, "runBatchConcurrent$1", itm))
 //@     requires [C09] binding(task, "runBatchConcurrent$1", mu) == alloc(sync.Mutex, 1) && binding(task, "runBatchConcurrent$1", shouldStop) == alloc(bool, 1) && *binding(task, "runBatchConcurrent$1", errorHandling) == errorHandling
+// no item has run when the first task is handed out: the stop flag is still down
+//@     requires [C06,C09] i == 0 ==> !*binding(task, "runBatchConcurrent$1", shouldStop)
 //@     requires [C02,C05,C07,C11] *binding(task, "runBatchConcurrent$1", ctx) == ctx && *binding(task, "runBatchConcurrent$1", node) == node
 //@     effect i = i
 //@   on call (*WorkerPool).Wait(p)
